@@ -68,6 +68,7 @@ def _work(args):
         out['sha'] = case.sha
         if case.unsupported:
             out['unsupported'] = case.unsupported
+            out['bounded'] = _bounded_fallback(modname, clsname, prop, tier)
             return out
         out['module_unsupported'] = case.module_unsupported
         obs = []
@@ -90,6 +91,7 @@ def _work(args):
                 obs += W.obligations_management(case)
         except Unsupported as e:
             out['unsupported'] = str(e)
+            out['bounded'] = _bounded_fallback(modname, clsname, prop, tier)
             return out
         mine = [o for o in obs if prop in owners(o)]
         out['symex_s'] = round(time.time() - t0, 2)
@@ -97,6 +99,7 @@ def _work(args):
         out['queries'] = nq
         findings = json.loads(os.environ.get('PYVC_KNOWN', '[]'))
         investigated = collections.Counter()
+        searched = collections.Counter()
         for r in recs:
             ob = r.pop('_ob')
             if r['res'] not in ('unsat', 'unrefined') and ob is not None:
@@ -106,11 +109,42 @@ def _work(args):
                 elif investigated[r['name']] < 2:
                     investigated[r['name']] += 1
                     r['replay'] = _investigate(case, ob, r, WR, driver)
+                    if not r['replay'].get('confirmed') and searched[r['name']] < 1:
+                        searched[r['name']] += 1
+                        v = _search_history(case, r['name'], prop)
+                        if v is not None:
+                            r['replay'] = {'confirmed': True, 'kind': 'history', 'history': v,
+                                           'why': 'failing history of the real code found by bounded exploration'}
             out['recs'].append(r)
+        if tier == 'thorough':
+            # consistency guard: the clauses the prover discharged, monitored on the real code over the
+            # reachable abstract states of a small scope (bounded; see contracts/wrapper_explore.py)
+            out['bounded'] = _bounded_fallback(modname, clsname, prop, tier)
         out['wall_s'] = round(time.time() - t0, 2)
     except Exception:
         out['error'] = traceback.format_exc()
     return out
+
+
+def _props_for_explorer(prop):
+    # C02's at-most-once claim rests on C07's clauses; Inv conjuncts are monitored for every property
+    return {'C02': {'C02', 'C07', 'INV'}}.get(prop, {prop, 'INV'})
+
+
+def _bounded_fallback(modname, clsname, prop, tier):
+    """Level B: monitor the property's clauses on the real code over all abstract states reachable within
+    a small scope.  Used when the source left the subset pyvc translates, and as a guard in thorough runs."""
+    from contracts import wrapper_explore as WE
+    depth, budget = (7, 240.0) if tier == 'thorough' else (5, 90.0)
+    try:
+        r = WE.explore(modname, clsname, depth=depth, budget_s=budget, only=_props_for_explorer(prop))
+    except Exception:
+        return {'error': traceback.format_exc()[-800:]}
+    r['scope'] = ('real %s.%s; keys from a universe of 3 (+1 unhashable, +1 raising, +1 raising key generation); maxsize in {1,2}; '
+                  'purge on/off; archive none/dict; all operation sequences (call, clear, load, dump, archived, key, '
+                  'lookup, info) up to depth %d from the freshly decorated function, deduplicated by abstract state'
+                  % (modname, clsname, depth))
+    return r
 
 
 def _investigate(case, ob, rec, WR, driver):
@@ -136,6 +170,28 @@ def _investigate(case, ob, rec, WR, driver):
     except Exception:
         info['why'] = 'replay crashed: ' + traceback.format_exc()[-600:]
     return info
+
+
+def _search_history(case, name, prop):
+    """a failing obligation whose counter-model did not reproduce: look for a concrete failing history of the
+    real code in the small scope (the clause itself if it is a clause, the property's clauses if it is an
+    invariant conjunct or a loop contract)"""
+    from contracts import wrapper_explore as WE
+    clause = name.split('/', 1)[1] if '/' in name else name
+    only = {clause} if not (clause.startswith('inv.') or clause.startswith('loop') or '@' in clause) else _props_for_explorer(prop)
+    try:
+        r = WE.explore(case.modname, case.clsname, depth=6, budget_s=25.0, only=only)
+    except Exception:
+        return None
+    for v in r['violations']:
+        if v.get('property') == 'ENGINE':
+            continue
+        try:
+            if WE.replay_history(v):
+                return v
+        except Exception:
+            continue
+    return None
 
 
 def run(prop, tier='quick', seed=0):
@@ -188,6 +244,7 @@ def check(prop, tier, seed, level_a_note=''):
     funcs = collections.OrderedDict()
     samples = []
     unsupported = []
+    bounded_runs = []
     known_used = collections.OrderedDict()
     queries = 0
     shas = {}
@@ -196,6 +253,9 @@ def check(prop, tier, seed, level_a_note=''):
             rep.broken.append('%s: %s' % (res['case'], res['error'][-800:]))
             continue
         shas[res['case']] = res['sha']
+        b = res.get('bounded')
+        if b is not None:
+            bounded_runs.append((res['case'], b, bool(res['unsupported'])))
         if res['unsupported']:
             unsupported.append('%s: %s' % (res['case'], res['unsupported']))
             continue
@@ -252,6 +312,9 @@ def check(prop, tier, seed, level_a_note=''):
                'how_to_replay': './check --replay %s' % path}
         if r.get('replay', {}).get('spec'):
             doc['spec'] = r['replay']['spec']
+        if r.get('replay', {}).get('kind') == 'history':
+            doc['replay_kind'] = 'history'
+            doc['history'] = r['replay']['history']
         common.write_json(path, doc)
         if confirmed:
             rep.violation(n, path, True)
@@ -259,12 +322,51 @@ def check(prop, tier, seed, level_a_note=''):
             rep.violation(n, path, False)
         else:
             rep.undecided.append('%s: %s (%s)' % (n, r['res'], r['reason']))
-    if unsupported:
-        for u in unsupported:
+    # bounded stand-in (fallback for cases outside the supported subset; guard in thorough runs)
+    bsum = {'cases': [], 'states': 0, 'transitions': 0, 'evaluations': 0, 'exhaustive': True, 'samples': []}
+    for (casename, b, is_fallback) in bounded_runs:
+        if b.get('error'):
+            if is_fallback:
+                rep.undecided.append('outside the supported subset and the bounded stand-in crashed: %s: %s' % (casename, b['error'][-300:]))
+            else:
+                rep.broken.append('bounded guard crashed: %s: %s' % (casename, b['error'][-300:]))
+            continue
+        bsum['cases'].append({'case': casename, 'fallback': is_fallback, 'states': b['states'], 'transitions': b['transitions'],
+                              'evaluations': b['evaluations'], 'exhausted_scope': b['exhausted'], 'scope': b['scope'],
+                              'wall_s': b['wall_s']})
+        for k in ('states', 'transitions', 'evaluations'):
+            bsum[k] += b[k]
+        bsum['exhaustive'] = bsum['exhaustive'] and b['exhausted']
+        bsum['samples'] += b['samples'][:1]
+        seenv = set()
+        for v in b['violations']:
+            if v.get('property') == 'ENGINE':
+                rep.broken.append('%s: %s' % (casename, v['clause']))
+                continue
+            n = '%s.%s/%s' % (casename, {'call': 'wrapper'}.get(v['history'][-1]['op'], v['history'][-1]['op']), v['clause'])
+            if n in seenv:
+                continue
+            seenv.add(n)
+            if _known_history(v, findings):
+                continue
+            if not is_fallback and n in names and not names[n]['bad']:
+                # the prover discharged this clause but it fails on a reachable state of the real code
+                rep.broken.append('engine/contract inconsistency: %s discharged but violated by the real code on %s'
+                                  % (n, [WE_short(o) for o in v['history']]))
+                continue
+            path = common.replay_path(prop, n + '@history')
+            common.write_json(path, {'property': prop, 'obligation': n, 'replay_kind': 'history', 'history': v,
+                                     'how_to_replay': './check --replay %s' % path, 'sources_sha256': shas,
+                                     'found_by': 'bounded exploration of the real code (contracts/wrapper_explore.py)'})
+            if n not in [x[0] for x in rep.violations]:
+                rep.violation(n, path, True)
+    for u in unsupported:
+        cn = u.split(': ')[0]
+        if not any(c['case'] == cn for c in bsum['cases']):
             rep.undecided.append('outside the supported subset: ' + u)
     if instances == 0 and not unsupported and not rep.broken:
         rep.broken.append('zero obligations generated')
-    level = 'proof' if (not unsupported and not rep.undecided) else 'other'
+    level = 'proof' if (not unsupported and not rep.undecided) else ('exploration' if bsum['cases'] else 'other')
     ev = {'property_id': prop, 'tier': tier, 'seed': seed, 'level': level,
           'coverage': {
               'obligations': len(names), 'discharged': len(discharged),
@@ -274,7 +376,13 @@ def check(prop, tier, seed, level_a_note=''):
               'functions_under_contract': list(funcs.keys()),
               'backend': 'z3 5.1.0 python API (one query per path x property group, refined per clause on failure)',
               'solver_ms_total': round(ms_total, 1), 'slow_queries': slow[:20],
-              'samples': samples, 'unsupported': unsupported,
+              'samples': samples + bsum['samples'][:3], 'unsupported': unsupported,
+              'bounded': bsum,
+              'evaluations': bsum['evaluations'], 'distinct_nontrivial': bsum['states'],
+              'rule': 'bounded part (labelled bounded, never counted as proved): one evaluation = one contract clause '
+                      'monitored on one transition of the real code; distinct_nontrivial = distinct reachable abstract '
+                      'states (mem, archives, queue, counters) expanded; zero when no bounded run was needed',
+              'exhaustive': bool(bsum['cases']) and bsum['exhaustive'],
               'known_findings_printed': rep.known_lines,
               'sources_sha256': shas,
               'explanation': 'VCs generated from the real source of klepto/_cache.py and klepto/safe.py on this run '
@@ -284,3 +392,19 @@ def check(prop, tier, seed, level_a_note=''):
     if '--record-baseline' in sys.argv:
         common.save_baseline(prop, discharged)
     return rep.finish(ev)
+
+
+def WE_short(o):
+    from contracts import wrapper_explore as WE
+    return WE._short(o)
+
+
+def _known_history(v, findings):
+    """a bounded-exploration violation that falls in the witness class of a listed finding"""
+    for f in findings:
+        if f.get('exclude') == 'no_cache.resident_entry_not_in_archive' and v['clause'] == 'evicted_entries_are_archived' \
+                and v['state']['cls'] == 'no_cache':
+            st = v['state']
+            if st.get('A') is not None and any(k not in st['A'] for k in st['mem']):
+                return True
+    return False
